@@ -246,23 +246,39 @@ impl Runner {
                 // sends until it has been quiet for 150 ms; output = [closed?; reply frames...]
                 let c = tok_int(&op[1]);
                 let mut newop = op.to_vec(); newop[2] = Tok::I(self.logical);
-                let cl = match self.conns.get_mut(&c) { Some(x) => x, None => return (newop, vec![b("CLOSED")]) };
+                let mut cl = match self.conns.remove(&c) { Some(x) => x, None => return (newop, vec![b("CLOSED")]) };
                 for ch in &op[3..] { let _ = cl.send(tok_bytes(ch)); std::thread::sleep(Duration::from_millis(25)); }
                 let mut frames = vec![]; let mut closed = 0; let mut bad = false;
+                // "quiet" is decided by the server, not by the clock alone: after 150 ms without a frame
+                // two round trips on the control connection guarantee that the event loop has visited this
+                // connection with everything we sent already in its socket; only if nothing arrives after
+                // that is the collection over (a loaded machine then delays the barrier, not the verdict)
+                let mut wait_ms = 150;
                 loop {
-                    match cl.read(150) {
-                        Rd::Val(v) => frames.push(v),
-                        Rd::Timeout => break,
+                    match cl.read(wait_ms) {
+                        Rd::Val(v) => { frames.push(v); wait_ms = 150; }
+                        Rd::Timeout => { if wait_ms == 60 { break; } self.barrier(); wait_ms = 60; }
                         Rd::Closed => { closed = 1; break; }
                         Rd::Bad => { bad = true; break; }
                     }
                 }
+                self.conns.insert(c, cl);
                 let mut out = vec![i(closed)];
                 for f in frames { canon(f).enc(&mut out); }
                 if bad { out.push(b("GARBAGE")); }
                 (newop, out)
             }
             _ => (op.to_vec(), vec![b("BADOP")]),
+        }
+    }
+    /// two request/reply round trips on the private control connection (authenticated when needed)
+    pub fn barrier(&mut self) {
+        if !self.conns.contains_key(&-1) { if let Some(cl) = Client::connect(self.srv.port) { self.conns.insert(-1, cl); } }
+        let pw = self.password.clone();
+        if let Some(cl) = self.conns.get_mut(&-1) {
+            let mut ask = |cl: &mut Client, args: &[&[u8]]| { let mut w = vec![]; V::cmd(args).wire(&mut w); cl.send(&w); let _ = cl.read(8000); };
+            if let Some(p) = &pw { if !self.ctl_authed { ask(cl, &[b"AUTH", p.as_bytes()]); self.ctl_authed = true; } }
+            ask(cl, &[b"PING"]); ask(cl, &[b"PING"]);
         }
     }
     pub fn finish(mut self) -> bool { let alive = self.srv.alive(); self.conns.clear(); self.srv.stop(false); alive }
